@@ -154,7 +154,7 @@ def pattern(draw, classes=None, max_atoms=6, alphabet=None, min_atoms=1):
     return {"pos": pos.tolist(), "els": list(els), "cls": cls}
 
 
-CELL_CLASSES = ["ortho", "ortho", "tilt", "tilt", "tilt-neg", "tilt-small"]
+CELL_CLASSES = ["ortho", "ortho", "tilt", "tilt", "tilt-neg", "tilt-small", "left-handed"]
 TIGHTNESS = [1.02, 1.1, 1.5, 3.0]
 
 
@@ -176,6 +176,7 @@ def cell_for(draw, min_width, classes=None, tightness=None):
         b = draw(st.floats(0.7, 1.6))
         c = draw(st.floats(0.7, 1.6))
         lim = 0.1 if cls == "tilt-small" else 0.6
+        lefthanded = cls == "left-handed"
         if cls == "tilt-neg":
             t = [-draw(st.floats(0.05, lim)), draw(st.floats(-lim, lim)), -draw(st.floats(0.05, lim))]
         else:
@@ -186,6 +187,13 @@ def cell_for(draw, min_width, classes=None, tightness=None):
         cell = np.array([[a, 0, 0], [xy, b, 0], [xz, yz, c]])
         w = geom.perp_widths(cell)
         cell = cell * (min_width * f * (1 + 1e-3) / w.min())
+        if lefthanded:
+            # a left-handed cell (A . (B x C) < 0): the same lattice described with two vectors swapped, or with one
+            # vector reversed - the search documents that it handles the orientation of the face normals
+            if draw(st.booleans()):
+                cell = cell[[1, 0, 2]]
+            else:
+                cell = cell * np.array([[1.0], [1.0], [-1.0]])
         signs = "".join("+" if x > 1e-3 else "-" if x < -1e-3 else "0" for x in (xy, xz, yz))
     return cell.tolist(), {"cell_cls": cls, "tight": f, "tilt_signs": signs}
 
